@@ -1002,6 +1002,24 @@ fn parse_expr_binop(
                 }
             };
 
+            // Literal types only exist as scalars
+            // A vector or matrix operation works on the type the literal would settle on
+            let target_nv_id = match (
+                &dim,
+                context.module.type_registry.extract_scalar(target_nv_id),
+            ) {
+                (ir::NumericDimension::Scalar, _) => target_nv_id,
+                (_, Some(ir::ScalarType::IntLiteral)) => context
+                    .module
+                    .type_registry
+                    .transform_scalar(target_nv_id, ir::ScalarType::Int32),
+                (_, Some(ir::ScalarType::FloatLiteral)) => context
+                    .module
+                    .type_registry
+                    .transform_scalar(target_nv_id, ir::ScalarType::Float32),
+                _ => target_nv_id,
+            };
+
             // Apply the found dimension (to both sides of input)
             let ty = match dim {
                 ir::NumericDimension::Scalar => target_nv_id,
